@@ -243,6 +243,9 @@ func runC24(c *Ctx) {
 	keyOK := TrueRes("validInstanceKey.MatchString(key)", true, 0, CallWhere(ToFn(matchStr), 0, VGlobal(gKey)))
 	vsObj := P.FuncObj(pkg + ".ValidateSnap")
 	hasSep := Cmp("IndexByte(name,'_')==-1", VRes(0, ToFn(P.FuncObj("strings.IndexByte"))), token.EQL, VConstInt(-1))
+	noSepCut := Atom{Name: "strings.Cut(name,\"_\") found nothing", Match: func(cd Cond) Pol {
+		return cd.BoolIs(VRes(2, CallWhere(ToFn(P.FuncObj("strings.Cut")), 1, VConstStr("_")))).Flip()
+	}}
 	for i, lf := range nilLeaves(vi, 0) {
 		c.GuardedFlow(fmt.Sprintf("%s.ValidateInstance#nil<=store-name-valid#%d", pkg, i+1), vi, lf, []Clause{{OkCall("ok(ValidateSnap(store name))", vsObj)}}, nil)
 		c.GuardedFlow(fmt.Sprintf("%s.ValidateInstance#nil<=key-valid#%d", pkg, i+1), vi, lf, []Clause{{keyOK}}, nil)
@@ -250,7 +253,7 @@ func runC24(c *Ctx) {
 	// without separator the verdict is ValidateSnap's
 	okDeleg := false
 	for _, lf := range ReturnLeaves(vi, 0) {
-		if VRes(0, CallWhere(ToFn(vsObj), 0, VParam(vi, 0)))(lf.Val) && c.tryFlow(vi, lf, Clause{hasSep}) {
+		if VRes(0, CallWhere(ToFn(vsObj), 0, VParam(vi, 0)))(lf.Val) && c.tryFlow(vi, lf, Clause{hasSep, noSepCut}) {
 			okDeleg = true
 		}
 	}
